@@ -60,6 +60,8 @@ pub async fn run(
         let entries = push_registry.entries();
         if !entries.is_empty() {
             for (name, push_config) in entries {
+                #[cfg(deltio_verif)]
+                crate::verif::point("push_loop.per_entry").await;
                 let subscription = match subscription_manager.get_subscription(&name) {
                     Ok(s) => s,
                     // The subscription was likely deleted and haven't been cleaned up
@@ -143,6 +145,8 @@ async fn dispatch_message(
         &subscription.name,
         &push_config.endpoint
     );
+    #[cfg(deltio_verif)]
+    let client = crate::verif::PushClient::shadow(&client);
     let result = client
         .request(reqwest::Method::POST, &push_config.endpoint)
         .header("Content-Type", "application/json;charset=utf8")
@@ -177,6 +181,8 @@ async fn dispatch_message(
     };
 
     if !success {
+        #[cfg(deltio_verif)]
+        crate::verif::probe("push_nack");
         let _ = subscription
             .modify_ack_deadlines(vec![DeadlineModification::nack(pulled_message.ack_id())])
             .await;
